@@ -480,6 +480,71 @@ def run_F(chk):
                             f"{f.name}(): `{A.short(st, 70)}` pops `{A.text(pc.func.value)}` under another condition than the parallel stacks "
                             f"({', '.join(A.text(p2.func.value) for s2, p2 in major)}): on the path that skips it the stack keeps the entries of a node that was already "
                             f"reduced, and every later node reads signatures / charges that belong to other leaves (wrong masks for nested fusions such as p(s(oo)o))")
+    # --- F6: the compatibility test of two hard-fused legs looks at every field of the fusion record
+    chk.rule("F6", "the fusion-compatibility test compares every field of the fusion records (tree, op, s, t, D) of the paired legs", floor=4)
+    fus = prog.cls(MRG, "_Fusion")
+    fields = [b_.target.id for b_ in fus.node.body if isinstance(b_, ast.AnnAssign) and isinstance(b_.target, ast.Name)]
+    chk.require(len(fields) >= 4, "_Fusion: annotated fields not found")
+    tp = prog.func("yastn.tensor._tests", "_unpack_trans_test_axes_pair")
+    pa, pb = tp.params[0], tp.params[1]
+    seen = {}
+    for n in ast.walk(tp.node):
+        if isinstance(n, ast.Attribute) and n.attr in fields and isinstance(n.value, ast.Subscript) and A.text(n.value.value) in (f"{pa}.hfs", f"{pb}.hfs"):
+            seen.setdefault(n.attr, set()).add(A.text(n.value.value)[0:len(pa)] if A.text(n.value.value).startswith(pa + ".") else pb)
+    for fld in fields:
+        both = len(seen.get(fld, set())) == 2
+        chk.verdict("F6", tp, f"_unpack_trans_test_axes_pair compares `{fld}` of both fusion records", True if both else False,
+                    f"_unpack_trans_test_axes_pair(): the field `{fld}` of the fusion records of the paired hard-fused legs is not compared: legs fused from "
+                    f"spaces that differ only in `{fld}` (e.g. the same charges with other dimensions of the constituent legs) pass as identical, no mask is "
+                    f"computed and the 'do not match' errors behind it are never reached -- incompatible legs are combined block by block")
+    # --- F7: splices at precomputed positions run back to front
+    chk.rule("F7", "a loop that splices a list at positions taken from a precomputed sequence walks that sequence backwards", floor=1)
+    for f in prog.all_funcs({MRG}):
+        par_ = None
+        for lp in A.walk_local(f.node, include_self=False):
+            if not isinstance(lp, ast.For):
+                continue
+            tnames = set(A.assigned_names(lp.target))
+            spl = None
+            for st in lp.body:
+                if isinstance(st, ast.Assign):
+                    t_, v_ = st.targets[0], st.value
+                    # L = L[:n] + X + L[n+1:]
+                    if isinstance(t_, ast.Name) and isinstance(v_, ast.BinOp) and isinstance(v_.op, ast.Add):
+                        parts = []
+
+                        def flat(e):
+                            if isinstance(e, ast.BinOp) and isinstance(e.op, ast.Add):
+                                flat(e.left)
+                                flat(e.right)
+                            else:
+                                parts.append(e)
+                        flat(v_)
+                        if len(parts) == 3 and all(isinstance(p_, ast.Subscript) and A.text(p_.value) == t_.id and isinstance(p_.slice, ast.Slice) for p_ in (parts[0], parts[2])) \
+                                and parts[0].slice.lower is None and isinstance(parts[0].slice.upper, ast.Name) and parts[0].slice.upper.id in tnames:
+                            spl = (st, t_.id, parts[0].slice.upper.id, parts[1])
+                    # L[n:n+1] = X
+                    if isinstance(t_, ast.Subscript) and isinstance(t_.slice, ast.Slice) and isinstance(t_.slice.lower, ast.Name) and t_.slice.lower.id in tnames \
+                            and isinstance(t_.value, ast.Name):
+                        spl = (st, t_.value.id, t_.slice.lower.id, v_)
+            if spl is None:
+                continue
+            st, lname, pos, ins = spl
+            # does the inserted piece have a length other than 1?  `[x] * k`, a comprehension, a name: possibly; a one-element display: no
+            if isinstance(ins, (ast.List, ast.Tuple)) and len(ins.elts) == 1 and not isinstance(ins.elts[0], ast.Starred):
+                continue
+            it = lp.iter
+            args = it.args if isinstance(it, ast.Call) and A.call_name(it) == "zip" else [it]
+
+            def backwards(e):
+                return (isinstance(e, ast.Subscript) and isinstance(e.slice, ast.Slice) and e.slice.step is not None and A.neg_const(e.slice.step) == -1) or \
+                    (isinstance(e, ast.Call) and A.call_name(e) == "reversed")
+            ok = all(backwards(a_) for a_ in args) or (isinstance(it, ast.Call) and A.call_name(it) == "reversed")
+            chk.verdict("F7", (f, lp), f"{f.name}: `{A.short(st, 50)}` inside `for .. in {A.short(it, 40)}`", True if ok else False,
+                        f"{f.name}(): the loop replaces one entry of `{lname}` at position `{pos}` by a piece of another length while walking the "
+                        f"precomputed positions `{A.short(it, 40)}` front to back: every position after the first splice is stale (shifted by the "
+                        f"entries inserted before it) -- the wrong legs are expanded when two or more entries are replaced and a multi-entry one "
+                        f"sits in between; the sibling loop walks backwards")
     # sibling: fuse and unfuse derive the leg decomposition from the same table builder
     mf, mu = prog.func(MRG, "_meta_fuse_hard"), prog.func(MRG, "_meta_unfuse_hard")
     for f in (mf, mu):
